@@ -143,6 +143,8 @@ def explore_net(net, spec, depth, res):
     if depth:
         ex = Explorer(net, lambda n, s: full_ops(n, s), None, config=CONFIG, max_states=300 if depth < 2 else 120)
         states = ex.run(depth=depth)
+        if ex.capped:
+            res["caps"].append({"net": repr(net)[:80], "cap": "max_states"})
         res["states"] += len(ex.states)
         res["transitions"] += ex.transitions
     else:
